@@ -1297,6 +1297,11 @@ func (p *parser) scanBackslash(scanOnly bool) (*RegexNode, error) {
 	case 'W':
 		p.moveRight(1)
 		if p.useOptionE() || p.useRE2() {
+			if p.useOptionI() {
+				cc := &CharSet{}
+				cc.addWord(true, true, true)
+				return newRegexNodeSet(NtSet, p.options, cc), nil
+			}
 			return newRegexNodeSet(NtSet, p.options, NotECMAWordClass()), nil
 		}
 		return newRegexNodeSet(NtSet, p.options, NotWordClass()), nil
@@ -1756,7 +1761,7 @@ func (p *parser) scanCharSet(caseInsensitive, scanOnly bool) (*CharSet, error) {
 						inRange = false
 					}
 
-					cc.addWord(p.useOptionE() || p.useRE2(), ch == 'W')
+					cc.addWord(p.useOptionE() || p.useRE2(), ch == 'W', caseInsensitive)
 				}
 				continue
 
@@ -1835,7 +1840,7 @@ func (p *parser) scanCharSet(caseInsensitive, scanOnly bool) (*CharSet, error) {
 				if !scanOnly && p.useRE2() {
 					// look up the name since these are valid for RE2
 					// add the group based on the name
-					if ok := cc.addNamedASCII(nm, negate); !ok {
+					if ok := cc.addNamedASCII(nm, negate, caseInsensitive); !ok {
 						return nil, p.getErr(ErrInvalidCharRange)
 					}
 				}
